@@ -348,7 +348,7 @@ func (k *kwalk) stmt(s ast.Stmt) {
 		var ops []string
 		interesting := false
 		for i, r := range s.Results {
-			if k.hasErr && i == len(s.Results)-1 && identName(r) == "" {
+			if ce, isCall := r.(*ast.CallExpr); k.hasErr && i == len(s.Results)-1 && identName(r) == "" && (!isCall || k.ignoredCall(ce)) {
 				ops = append(ops, "error") // a constructed error: its text is not tied
 				interesting = interesting || len(s.Results) == 1
 				continue
@@ -356,6 +356,9 @@ func (k *kwalk) stmt(s ast.Stmt) {
 			k.expr(r)
 			o := k.operand(r)
 			ops = append(ops, o)
+			if _, isCall := r.(*ast.CallExpr); isCall && o == "_" {
+				interesting = true // the result of the call just listed is returned
+			}
 			if !isErrName(r) && o != "_" && !strings.HasSuffix(o, "{}") {
 				interesting = true
 			}
